@@ -278,13 +278,49 @@ def run_posix(desc):
                                        'impl': c in acc, 'stream': 'posix'}, size=10, bucket=('posix', name, neg))
                 if must and mustnot:
                     out.nontrivial(('posix', text))
+    # bracket expressions written by hand, with the members spelled out: where `-`, `]`, `!`, `^` and `\\` stand decides
+    # whether they are literal, and a range may start at a literal leading `-` or `]`
+    rng = lambda a, b: set(map(chr, range(ord(a), ord(b) + 1)))
+    table = [('[--9]', rng('-', '9'), False), ('[!--9]', rng('-', '9'), True), ('[]-a]', rng(']', 'a'), False), ('[!]-a]', rng(']', 'a'), True),
+             ('[]a-c]', set(']abc'), False), ('[-a-c]', set('-abc'), False), ('[a-c-]', set('abc-'), False), ('[]-]', set(']-'), False),
+             ('[--/]', rng('-', '/'), False), ('[+--]', rng('+', '-'), False), ('[a\\-z]', set('a-z'), False), ('[\\--9]', rng('-', '9'), False),
+             ('[\\]-a]', rng(']', 'a'), False), ('[%--]', rng('%', '-'), False), ('[!-a]', set('-a'), True), ('[^-a]', set('-a'), True),
+             ('[a^]', set('a^'), False), ('[a!]', set('a!'), False), ('[]]', set(']'), False), ('[!]]', set(']'), True), ('[a-]', set('a-'), False),
+             ('[-]', set('-'), False), ('[!-]', set('-'), True), ('[\\\\]', set('\\'), False), ('[a\\]b]', set('a]b'), False),
+             ('[--]', set('-'), False), ('[0-9-a]', rng('0', '9') | set('-a'), False), ('[]-]]', None, None)]
+    ascii_chars = [chr(i) for i in range(1, 128) if chr(i) != '/']
+    for text, members, neg in table:
+        if members is None:
+            continue
+        for prefix, suffix in (('', ''), ('x', ''), ('', 'y'), ('@(', '|q)z')):
+            pat = prefix + text + suffix
+            tail = 'z' if suffix.endswith('z') else suffix
+            names = [prefix.replace('@(', '') + c + tail for c in ascii_chars]
+            acc = set(F.filter(names, pat, flags=F.DOTMATCH | F.EXTMATCH))
+            bacc = set(F.filter([n.encode() for n in names], pat.encode(), flags=F.DOTMATCH | F.EXTMATCH))
+            for c, n in zip(ascii_chars, names):
+                want = ((c in members) != neg) or (prefix == '@(' and c == 'q')
+                out.evaluations += 1
+                if (n in acc) != want or (n.encode() in bacc) != want:
+                    out.violation({'mode': 'fn', 'pattern': pat, 'cfg': {'dot': True, 'ext': True}, 'name': n, 'verdict': R.MUST if want else R.MUSTNOT,
+                                   'impl': n in acc, 'impl_bytes': n.encode() in bacc, 'stream': 'brackets', 'raw': True},
+                                  size=10, bucket=('brackets', text))
+                    break
+        out.nontrivial(('brackets', text))
     out.sample({'pattern': '[[:punct:]]', 'names': len(chars), 'stream': 'posix'})
     return out
 
 
 def replay(case):
+    if case.get('raw'):
+        got = F.fnmatch(case['name'], case['pattern'], flags=F.DOTMATCH | F.EXTMATCH)
+        gotb = F.fnmatch(case['name'].encode(), case['pattern'].encode(), flags=F.DOTMATCH | F.EXTMATCH)
+        want = case['verdict'] == R.MUST
+        return bool(got) == want and bool(gotb) == want, {'impl': bool(got), 'impl_bytes': bool(gotb), 'want': want}
     return lang.replay_case(case)
 
 
 def shrink(case):
+    if case.get('raw'):
+        return case
     return lang.shrink_case(case)
